@@ -663,6 +663,13 @@ fn gen_list<M: MF>(rng: &mut Rng, len: usize, style: u32) -> Vec<M> {
         if r < 18 { let t = rng.usize(1, len); for i in len - t..len { v[i] = M::zero(); } }
         else if r < 28 { let t = rng.usize(1, len); for i in 0..t { v[i] = M::zero(); } }
         else if r < 32 { for i in 0..len { v[i] = M::zero(); } }
+        // gappy shapes: a single term c*x^k stored at full length, a*x^(len-1) + c, and one long run of zero coefficients
+        else if r < 52 {
+            let nz = |rng: &mut Rng| -> M { for _ in 0..8 { let c = gen_m::<M>(rng, style); if !c.is_zero_e() { return c; } } M::one() };
+            if r < 40 { let k = rng.usize(0, len - 1); let c = nz(rng); for i in 0..len { v[i] = M::zero(); } v[k] = c; }
+            else if r < 46 { let (c0, c1) = (nz(rng), nz(rng)); for i in 0..len { v[i] = M::zero(); } v[0] = c0; v[len - 1] = c1; }
+            else { let i0 = rng.usize(0, len - 1); let i1 = rng.usize(i0, len - 1); for i in i0..=i1 { v[i] = M::zero(); } if v[len - 1].is_zero_e() && rng.bool() { v[len - 1] = nz(rng); } }
+        }
     }
     v
 }
